@@ -279,7 +279,7 @@ func init() {
 	RegisterPlan("C14", func(tier string) *Plan {
 		return &Plan{
 			Prop: "C14", Level: "exploration", Engine: "medium",
-			Runs:   tierPick(tier, 300, 30000),
+			Runs:   tierPick(tier, 1600, 300000),
 			Budget: tierPick(tier, 50*time.Second, 12*time.Minute),
 			Rule: "valid CARv1/CARv2 images (padded, with/without index, null padding, up to 8 blocks incl. 3-byte length varints) built by the reference codec; for each image ALL Next/SkipNext choice strings (<=6 blocks; 42 sampled beyond) x 6 capability profiles of the source (Reader, +ByteReader, ReadSeeker, +ByteReader, +ReaderAt, +both) x 3 delivery plans (full reads, seeded chunking, 1-byte dribble with EOF-with-data). Oracle: reference section table (CID, bytes, Offset, SourceOffset, Size, length prefix at SourceOffset), io.EOF after the last block, and for CARv2 the source's high-water mark never exceeds DataOffset+DataSize. " +
 				"An evaluation is one (image, choice string, profile, delivery); distinct non-trivial = distinct (image shape, choice string, profile, delivery class)",
